@@ -47,7 +47,13 @@ func runBatch(c *Ctx, drv *sut.Driver, jobs []harness.Job, race bool, timeout ti
 	defer cancel()
 	cmd := exec.CommandContext(ctx, drv.Bin, jf, rf)
 	cmd.Dir = dir
-	env := []string{"PATH=/usr/bin:/bin", "HOME=" + dir, "GOMAXPROCS=4"}
+	// GOMAXPROCS=1: the simulator runs one task at a time anyway, and per-P caches
+	// (sync.Pool) would otherwise hide sharing between tasks that happen to sit on
+	// different Ps.
+	env := []string{"PATH=/usr/bin:/bin", "HOME=" + dir, "GOMAXPROCS=1"}
+	if v := os.Getenv("VERIF_DRIVER_GOMAXPROCS"); v != "" {
+		env[2] = "GOMAXPROCS=" + v // determinism self-test only
+	}
 	raceLog := ""
 	if race {
 		raceLog = filepath.Join(dir, fmt.Sprintf("b%d.race", n))
